@@ -9,7 +9,7 @@ from .setgen import SCfg
 
 OWNED = {
     "C03": {"C03", "CRASH"},
-    "C04": {"C04", "CRASH"},
+    "C04": {"C04", "C05", "CRASH"},
     "C11": {"C11", "CRASH"},
     "C12": {"C12", "CRASH"},
     "C19": {"C19"},
@@ -59,6 +59,10 @@ def jobs_for(prop, tier, seed):
                 continue
             out.append((n, "random", setgen.random_script(cfg, seed + 3, 1500 if th else 150, 50), None))
             out.append((n, "bulk", setgen.bulk_script(cfg, seed + 3, 200 if th else 30), None))
+            if prop == "C05" and cfg.kind == "SS":
+                # the inline promise of a SmallSet: every (content, state) x operation of the small scope, and merge-heavy histories
+                out.append((n, "exhaustive", setgen.smallset_exhaustive(cfg, None if not th else cfg.default_domain + 1, pairs=th), 400))
+                out.append((n, "merges", setgen.random_script(cfg, seed + 5, 1500 if th else 400, 30, weights={"merge": 8, "insert": 5, "erase_key": 3, "insert_range": 3, "ctor": 2, "swap": 1, "move_assign": 1, "copy_assign": 1, "clear": 1, "insert_node": 1, "extract_key": 1}), None))
     elif prop == "C19":
         for n in setgen.CONFIGS:
             cfg = SCfg(n)
